@@ -727,3 +727,84 @@ Example C03_faults_nonvacuous :
   C03Adapter.a_conns (C03Adapter.exec 2 (C03Adapter.prog_of 5 0) [] (C03Adapter.enter 1 2)) = 1%Z /\
   C03Adapter.a_low (C03Adapter.exec 2 (C03Adapter.prog_of 5 0) [] (C03Adapter.enter 1 2)) = 1%Z.
 Proof. exact C03AdapterProofs.faults_nonvacuous. Qed.
+
+(* ---- 14. the stream's SOURCE as a transport --------------------------------------------------------
+   "When a stream ends for any reason (publisher disconnect, replacement by a new publisher, …) every
+   consumer attached to it … has its connection closed … the counters are back … no delivery or
+   conversion goroutine of that stream remains" — with the publisher being a real RTSP RECORD session
+   whose own protocol history decides which stream it will end.  Model/C03Source.v: the session's state
+   machine (status Init / Ready / Recording, record mode, the one reference [s_cur] = Session.stream
+   through which a published stream is unregistered and closed), the registry entry of the path (a newly
+   registered stream closes the previous one at once when it has no consumers, else retires it alive),
+   players attaching to whatever is registered; events: publisher requests OPTIONS / ANNOUNCE / SETUP /
+   RECORD at any time, attach / leave, another publisher taking the path, the source's end (TEARDOWN,
+   dropped connection; for a pulled source: its camera ending).  [guard] = RECORD while recording is a
+   keep-alive.  Tied to /repo by the stream "source-release" of checks/c03.py (a real RECORD session,
+   real players of six transports, consumer counts per stream generation, connection counters, ended
+   connections, conversion goroutines after every event). *)
+From V Require C03Source C03SourceProofs RunC03Source C03SourceWireProofs.
+
+(* once the source has ended — whatever requests it sent before (RECORD, ANNOUNCE, SETUP, OPTIONS repeated at any
+   time), whoever else took the path, whatever happens afterwards — every stream it ever published is ended with
+   nobody attached, and every player that ever attached to one of them has had Close called exactly once *)
+Theorem C03_source_end_releases_all : forall np h,
+  let s := C03Source.srun true np h in
+  C03Source.s_over s = true ->
+  (forall j, C03Source.s_mine s j = true ->
+     C03Source.s_live s j = false /\ forall c, C03Source.s_where s c <> Some j) /\
+  (forall c j, C03Source.s_ever s c = Some j -> C03Source.s_mine s j = true ->
+     C03Source.s_where s c = None /\ C03Source.s_closes s c = 1).
+Proof. exact C03SourceProofs.source_end_releases_all. Qed.
+Print Assumptions C03_source_end_releases_all.
+
+(* why: a session has at most one live stream of its own, and it is the one it will close *)
+Theorem C03_source_one_live_stream : forall np h j,
+  let s := C03Source.srun true np h in
+  C03Source.s_mine s j = true -> C03Source.s_live s j = true -> C03Source.s_cur s = Some j.
+Proof. exact C03SourceProofs.source_one_live_stream. Qed.
+Print Assumptions C03_source_one_live_stream.
+
+Theorem C03_source_close_at_most_once : forall np h c,
+  C03Source.s_closes (C03Source.srun true np h) c <= 1.
+Proof. exact C03SourceProofs.source_close_at_most_once. Qed.
+Print Assumptions C03_source_close_at_most_once.
+
+(* the oracle applied to the real session and players accepts the model, also on the wire *)
+Theorem C03_source_model_passes : forall np kinds h,
+  C03Source.ok_source np kinds h (C03Source.strace true np kinds C03Source.sinit h) = true.
+Proof. exact C03SourceProofs.source_model_passes. Qed.
+Print Assumptions C03_source_model_passes.
+
+Theorem C03_source_model_passes_on_the_wire : forall c,
+  RunC03Source.x_C03_source_ok (Val.VL [c; RunC03Source.x_C03_source_run c]) = Val.VI 1%Z.
+Proof. exact C03SourceWireProofs.source_model_passes_on_the_wire. Qed.
+Print Assumptions C03_source_model_passes_on_the_wire.
+
+(* without the keep-alive guard (the seeded change): ANNOUNCE, SETUP, RECORD, a player attaches, RECORD again, the
+   publisher disconnects — the first stream is alive for ever with its player attached and never closed *)
+Theorem C03_source_republish_refuted :
+  let s := C03Source.srun false 1 C03SourceProofs.source_witness in
+  C03Source.swf false 1 C03Source.sinit C03SourceProofs.source_witness = true /\ C03Source.s_over s = true /\
+  C03Source.s_mine s 0 = true /\ C03Source.s_live s 0 = true /\ C03Source.s_where s 0 = Some 0 /\
+  C03Source.s_closes s 0 = 0 /\
+  C03Source.s_live (C03Source.srun true 1 C03SourceProofs.source_witness) 0 = false /\
+  C03Source.s_closes (C03Source.srun true 1 C03SourceProofs.source_witness) 0 = 1 /\
+  C03Source.ok_source 1 [0%Z] C03SourceProofs.source_witness
+    (C03Source.strace false 1 [0%Z] C03Source.sinit C03SourceProofs.source_witness) = false.
+Proof. exact C03SourceProofs.source_republish_refuted. Qed.
+Print Assumptions C03_source_republish_refuted.
+
+(* non-vacuity: repeated requests of every kind, three players of three transports, one leaves, a second publisher
+   takes the path, a late player joins the new stream, the first source is torn down: its stream ends, its players
+   are closed once each, the newcomer on the other publisher's stream is untouched *)
+Example C03_source_nonvacuous :
+  let s := C03Source.srun true 4 C03SourceProofs.source_example in
+  C03Source.swf true 4 C03Source.sinit C03SourceProofs.source_example = true /\ C03Source.s_n s = 2 /\
+  C03Source.s_mine s 0 = true /\ C03Source.s_mine s 1 = false /\
+  C03Source.s_live s 0 = false /\ C03Source.s_live s 1 = true /\
+  map (C03Source.s_closes s) [0; 1; 2; 3] = [1; 1; 1; 0] /\ C03Source.s_where s 3 = Some 1 /\
+  last (C03Source.strace true 4 [0; 5; 3; 2]%Z C03Source.sinit C03SourceProofs.source_example)
+       (C03Source.sobserve 4 [] C03Source.sinit) =
+    {| C03Source.so_gens := [0; 1]%Z; C03Source.so_rtsp := 2%Z; C03Source.so_flv := 0%Z; C03Source.so_wsp := 0%Z;
+       C03Source.so_ended := [true; true; true; false]; C03Source.so_conv := 1%Z |}.
+Proof. exact C03SourceProofs.source_nonvacuous. Qed.
